@@ -39,6 +39,7 @@ def _work(job):
     for idx in range(lo, hi):
         vals = decode(factors, idx)
         acc.counters['evaluations'] += 1
+        acc.current_case = [label, idx]
         try:
             fn(vals, acc)
         except Exception as e:
@@ -77,3 +78,23 @@ def run(rep, label, factors, fn, nparts=None):
 def run_list(rep, label, cases, fn, nparts=None):
     """Same for an explicit list of cases."""
     return run(rep, label, [list(cases)], lambda vals, acc: fn(vals[0], acc), nparts)
+
+
+def rerun(label, idx, back=3):
+    """Re-executes cases idx-back .. idx of a registered product in this process,
+    in order, with a fresh accumulator: the replay of a failure whose answer
+    depends on the calls that preceded it (a cache keyed too coarsely, state
+    kept between calls). -> list of failure summaries of the last case."""
+    if label not in _REG:
+        return None
+    factors, fn = _REG[label]
+    out = []
+    for i in range(max(0, idx - back), idx + 1):
+        acc = Report('replay', {})
+        try:
+            fn(decode(factors, i), acc)
+        except Exception as e:
+            acc.fail('case-raised', {'exception': type(e).__name__}, {})
+        if i == idx:
+            out = [{'class': k, 'summary': v['summary']} for k, v in acc.violations.items()]
+    return out
